@@ -305,10 +305,16 @@ class Lowering:
         if t.endswith('*'):
             return self.ctype(t[:-1]) + ' *'
         if t.endswith(' const'):
-            return 'const ' + self.ctype(t[:-6])
+            inner = self.ctype(t[:-6])
+            if inner.rstrip().endswith('*'):
+                return inner.rstrip() + 'const'
+            return 'const ' + inner
         const = ''
         if t.startswith('const '):
-            return 'const ' + self.ctype(t[6:].strip())
+            inner = self.ctype(t[6:].strip())
+            if inner.rstrip().endswith('*'):
+                return inner.rstrip() + 'const'      # a const object of a class modelled by a pointer
+            return 'const ' + inner
         for kw in ('struct ', 'class ', 'enum ', 'union '):
             if t.startswith(kw):
                 t = t[len(kw):]
@@ -1811,9 +1817,37 @@ class Lowering:
             return self.call(decl, this, args[1:], n, ctx, discard)
         return self.call(decl, None, args, n, ctx, discard)
 
+    _src_cache = {}
+
+    def source_text(self, n):
+        """Source characters covered by a single-line node (used only to see a `Base::` qualifier, which
+        clang's JSON dump does not carry)."""
+        r = n.get('range') or {}
+        b, e = r.get('begin') or {}, r.get('end') or {}
+        b = b.get('expansionLoc', b)
+        e = e.get('expansionLoc', e)
+        f, l1, l2 = b.get('_file'), b.get('_line'), e.get('_line')
+        if not f or l1 is None or l1 != l2 or 'col' not in b or 'col' not in e:
+            return ''
+        if f not in self._src_cache:
+            try:
+                self._src_cache[f] = open(f, errors='replace').read().split('\n')
+            except OSError:
+                self._src_cache[f] = []
+        lines = self._src_cache[f]
+        if l1 - 1 >= len(lines):
+            return ''
+        return lines[l1 - 1][b['col'] - 1:e['col'] - 1 + e.get('tokLen', 0)]
+
     def call(self, decl, this, args, n, ctx, discard):
         d = self.tu.definition(decl)
         q = self.tu.qualname(d)
+        # Base::f(args) on this: a direct call, not virtual dispatch
+        qualified_direct = False
+        if (d.get('virtual') or decl.get('virtual')) and n.get('kind') == 'CXXMemberCallExpr':
+            mem = kids(n)[0]
+            if '::' in self.source_text(mem):
+                qualified_direct = True
         if q in self.raise_fns:
             self.mark_raise(ctx.fn)
             self.report['raise_sites'] += 0
@@ -1831,7 +1865,7 @@ class Lowering:
         if q == '__builtin_unreachable':
             return 'verif_unreachable()'
         vm = None
-        if d.get('virtual') or decl.get('virtual'):
+        if (d.get('virtual') or decl.get('virtual')) and not qualified_direct:
             vm = self.virtual_model.get(q)
             if vm is None:
                 raise Unsupported('virtual call to %s needs a model (cfg.virtual)' % q)
